@@ -24,6 +24,7 @@ func init() {
 			"(VALIDATE-COMPLETE/CHECKSUM-COVERAGE) a header is accepted only with magic, version and a checksum that covers every field. " +
 			"Not decided: which subset of unsynced writes survives a crash, torn header bytes, truncate arithmetic, that vfs.File.Sync makes data durable.",
 		run: func(p *Program, rep *Report, tier string) {
+			g(rep, "REGION-CODEC", func() { ruleREGIONCODEC(p, rep) })
 			g(rep, "ORDER", func() { ruleORDER(p, rep, orderSet("ORDER", "SLOT", "FINALIZE", "WHO-MAY-SWITCH")) })
 			g(rep, "SHADOW", func() { ruleSHADOW(p, rep) })
 			g(rep, "DEFERFREE", func() { ruleDEFERFREE(p, rep) })
@@ -88,6 +89,7 @@ func init() {
 			g(rep, "PQTX", func() { rulePQTX(p, rep) })
 			g(rep, "KEEPWRITEPAGE", func() { ruleKEEPWRITEPAGE(p, rep) })
 			g(rep, "POSITION-COHERENT", func() { rulePOSITIONCOHERENT(p, rep) })
+			g(rep, "TAIL-OFFSET", func() { ruleTAILOFFSET(p, rep) })
 			g(rep, "TX-PAIRING", func() { ruleTXPAIRING(p, rep) })
 			g(rep, "ERRDISC", func() { ruleERRDISC(p, rep, "pq", false) })
 			g(rep, "ORDER", func() { ruleORDER(p, rep, orderSet("ORDER", "SLOT")) })
@@ -138,6 +140,7 @@ func init() {
 		explain: "Decides the agreement clauses of close/reopen: (PERSIST-AGREE) every persisted header field written on a commit/flush/ACK path (file header, queue header, event page header) is read back on the open/read path; " +
 			"(RELOAD-AGREE) every in-memory field assigned by the commit-time switch is also assigned by the open-time loaders. Not decided: encode/decode round trip, page-count prediction, 7-byte ids.",
 		run: func(p *Program, rep *Report, tier string) {
+			g(rep, "REGION-CODEC", func() { ruleREGIONCODEC(p, rep) })
 			g(rep, "PERSIST-AGREE", func() { rulePERSISTAGREE(p, rep) })
 			g(rep, "RELOAD-AGREE", func() { ruleRELOADAGREE(p, rep) })
 			g(rep, "MMAP-COVERS-FILE", func() { ruleMMAPCOVERSFILE(p, rep) })
@@ -148,6 +151,7 @@ func init() {
 		explain: "Decides the size-limit clause: (CAPACITY) every end-marker advance is dominated by a capacity test derived from maxPages/Avail() or by the overflow flag; (OVERFLOW-GATE) that flag is only ever the transaction's EnableOverflowArea option or false; " +
 			"plus (UNDO-JOURNAL, INV-FL) no page vanishes on rollback. Not decided: the conservation equation, FileStats arithmetic, truncation.",
 		run: func(p *Program, rep *Report, tier string) {
+			g(rep, "SNAPSHOT-AFTER-ALLOC", func() { ruleSNAPSHOTAFTERALLOC(p, rep) })
 			g(rep, "CAPACITY", func() { ruleCAPACITY(p, rep) })
 			g(rep, "DEFERFREE", func() { ruleDEFERFREE(p, rep) })
 			g(rep, "UNDO-JOURNAL", func() { ruleUNDOJOURNAL(p, rep) })
@@ -172,6 +176,7 @@ func init() {
 		explain: "Decides structural conditions of concurrent producer/consumer: (TX-PAIRING) no queue function leaks a transaction (= a file lock the other role waits for); (KEEPWRITEPAGE) the page the writer appends to is never in an ACK plan; " +
 			"(CONFINEMENT) writer, reader and ACK roles share no mutable memory; and the file-level lock rules underneath (LOCKS for Begin/Commit/Close). Not decided: FIFO equality, validity of an ACK plan across its two transactions in general.",
 		run: func(p *Program, rep *Report, tier string) {
+			g(rep, "LOCKSET", func() { ruleLOCKSET(p, rep) })
 			g(rep, "TX-PAIRING", func() { ruleTXPAIRING(p, rep) })
 			g(rep, "KEEPWRITEPAGE", func() { ruleKEEPWRITEPAGE(p, rep) })
 			g(rep, "CONFINEMENT", func() { ruleCONFINEMENT(p, rep) })
@@ -223,6 +228,7 @@ func init() {
 		id: "C17",
 		explain: "Decides the callback clause only: (PQTX) Settings.Flushed / Settings.ACKed and the counters behind them are only touched after Commit()==nil of the one flush/ACK transaction; (CALLBACK-ARG) the callback's argument is the event count taken before the transaction, not the counter after its reset. Pending/Active/Available arithmetic is not decided.",
 		run: func(p *Program, rep *Report, tier string) {
+			g(rep, "COUNTER-SOURCES", func() { ruleCOUNTERSOURCES(p, rep) })
 			g(rep, "PQTX", func() { rulePQTX(p, rep) })
 			g(rep, "CALLBACK-ARG", func() { ruleCALLBACKARG(p, rep) })
 		},
